@@ -70,6 +70,26 @@ type c16Case struct {
 	Levels   []int    `json:"levels"`   // per fan: quantiser levels (analysis length)
 	DelaysMs []int    `json:"delaysMs"` // per fan: start delay
 	Kinds    []string `json:"kinds"`    // per fan: hwmon | file (file fans are analysed = swept by computePwmMap on their first start)
+	// Priors: what the (real bbolt) database holds for the fan before the start: "" nothing, "curve" a stored RPM curve
+	// but no PWM map, "curve+corrupt-map" / "curve+wrong-shape-map" a stored RPM curve and an unreadable PWM map entry.
+	// With a stored curve the start-up goes straight to the PWM-map sweep, which is an analysis like any other.
+	Priors []string `json:"priors,omitempty"`
+}
+
+func (c *c16Case) prior(i int) string {
+	if i < len(c.Priors) {
+		return c.Priors[i]
+	}
+	return ""
+}
+
+func (c *c16Case) hasPriors() bool {
+	for _, p := range c.Priors {
+		if p != "" {
+			return true
+		}
+	}
+	return false
 }
 
 type c16Interval struct {
@@ -113,7 +133,17 @@ func runC16(ctx *Ctx, c *c16Case) (intervals []c16Interval, ok bool) {
 	var ctrls []controller.FanController
 	var ids []string
 	var mu sync.Mutex
-	sp := &seqPersistence{inner: newMemPersistence(), mu: &mu, saved: map[string]int64{}, savedMap: map[string]int64{}}
+	var inner persistence.Persistence = newMemPersistence()
+	dbPath := filepath.Join(dir, "fan2go.db")
+	if c.hasPriors() {
+		// the real database: only it distinguishes a missing entry from an unreadable one
+		inner = persistence.NewPersistence(dbPath)
+		if err := inner.Init(); err != nil {
+			ctx.Inconclusive("database: " + err.Error())
+			return nil, false
+		}
+	}
+	sp := &seqPersistence{inner: inner, mu: &mu, saved: map[string]int64{}, savedMap: map[string]int64{}}
 	var paths []string
 	for i := 0; i < n; i++ {
 		fdir := filepath.Join(dir, fmt.Sprintf("hwmon%d", i))
@@ -137,6 +167,23 @@ func runC16(ctx *Ctx, c *c16Case) (intervals []c16Interval, ok bool) {
 			fcfg = configuration.FanConfig{ID: id, Curve: curve.Id, File: &configuration.FileFanConfig{Path: pwm, RpmPath: rpm}}
 		}
 		fan, _ := fans.NewFan(fcfg)
+		if pr := c.prior(i); pr != "" {
+			data := map[int]float64{}
+			for k := 0; k <= 255; k++ {
+				data[k] = float64(k) / 255 * 2000
+			}
+			_ = fan.AttachFanRpmCurveData(&data)
+			if err := inner.SaveFanPwmData(fan); err != nil {
+				ctx.Inconclusive("storing the prior RPM curve: " + err.Error())
+				return nil, false
+			}
+			switch pr {
+			case "curve+corrupt-map":
+				_ = plantRaw(dbPath, "map", id, "{\"0\":0,\"255\":")
+			case "curve+wrong-shape-map":
+				_ = plantRaw(dbPath, "map", id, "[1,2,3]")
+			}
+		}
 		ctrls = append(ctrls, controller.NewFanController(sp, fan, control_loop.NewDirectControlLoop(nil), 5*time.Millisecond))
 	}
 	d.Mu.Lock()
@@ -160,7 +207,7 @@ func runC16(ctx *Ctx, c *c16Case) (intervals []c16Interval, ok bool) {
 		go func(i int) {
 			defer wg.Done()
 			time.Sleep(time.Duration(c.DelaysMs[i]) * time.Millisecond)
-			if c.ViaRun || c.kind(i) == "file" {
+			if c.ViaRun || c.kind(i) == "file" || c.prior(i) != "" {
 				_ = ctrls[i].Run(cctx)
 			} else {
 				_ = ctrls[i].RunInitializationSequence()
@@ -173,10 +220,11 @@ func runC16(ctx *Ctx, c *c16Case) (intervals []c16Interval, ok bool) {
 		mu.Lock()
 		finished := 0
 		for i := 0; i < n; i++ {
-			if _, ok := sp.saved[ids[i]]; ok && c.kind(i) == "hwmon" {
+			mapOnly := c.kind(i) == "file" || c.prior(i) != "" // the analysis ends with the stored PWM map
+			if _, ok := sp.saved[ids[i]]; ok && !mapOnly {
 				finished++
 			}
-			if _, ok := sp.savedMap[ids[i]]; ok && c.kind(i) == "file" {
+			if _, ok := sp.savedMap[ids[i]]; ok && mapOnly {
 				finished++
 			}
 		}
@@ -246,6 +294,11 @@ func genC16(r *rand.Rand) *c16Case {
 		c.DelaysMs = append(c.DelaysMs, pick(r, 0, 0, 5, 20, 60, r.Intn(150)))
 		c.Kinds = append(c.Kinds, pick(r, "hwmon", "hwmon", "file"))
 	}
+	if r.Intn(3) == 0 {
+		for i := 0; i < n; i++ {
+			c.Priors = append(c.Priors, pick(r, "", "curve", "curve+corrupt-map", "curve+corrupt-map", "curve+wrong-shape-map"))
+		}
+	}
 	return c
 }
 
@@ -264,6 +317,18 @@ func init() {
 			ctx.Eval(1)
 			cnt, desc := c16Overlaps(iv)
 			class := fmt.Sprintf("fans=%d:viaRun=%v:fileFans=%d", len(c.Levels), c.ViaRun, strings.Count(strings.Join(c.Kinds, ","), "file"))
+			if c.hasPriors() {
+				stored, unreadable := 0, 0
+				for _, pr := range c.Priors {
+					if pr != "" {
+						stored++
+					}
+					if strings.HasSuffix(pr, "-map") {
+						unreadable++
+					}
+				}
+				class += fmt.Sprintf(":storedCurve=%d:unreadableMap=%d", stored, unreadable)
+			}
 			ctx.SampleKind(class, map[string]interface{}{"kind": class, "case": c, "intervals_in_event_sequence_numbers": iv})
 			if cnt > 0 {
 				ctx.Violation("analyses-overlap-although-parallel-initialisation-is-off:"+class, fmt.Sprintf("%s; case %s", desc, jsonStr(c)), c)
